@@ -87,6 +87,7 @@ class Interp:
         self.fn_stack = []
         self.module_globals = module_globals or {}
         self.inline_depth = 0
+        self._last_fmt = None
 
     # ================================================================== function execution
     def exec_function(self, fdef: ast.FunctionDef, args, kwargs=None, loop_specs=None, qualname=None):
@@ -351,8 +352,11 @@ class Interp:
                 if isinstance(x, str): parts.append(x); nonempty = nonempty or bool(x)
                 else:
                     concrete = False
+                    self._last_fmt = x
                     self.note_str_read(x)
         if concrete: return "".join(parts)
+        if len(e.values) == 3 and parts == ["pint[", "]"] and isinstance(self._last_fmt, Opaque) and self._last_fmt.what == "unitstr":
+            return Opaque("pint-dtype", self._last_fmt.payload)
         return Label(nonempty, "".join(p for p in parts))
 
     def note_str_read(self, x):
@@ -577,6 +581,8 @@ class Interp:
         return conv(a, b if isinstance(b, Qty) else a), conv(b, a if isinstance(a, Qty) else b)
 
     def contains(self, container, x):
+        if isinstance(container, IntSet) and isinstance(x, PyNum):
+            return self.eng.decide(container.pred(x.z))
         if isinstance(container, QIds) and isinstance(x, PyNum):
             k = self.eng.fresh("k_in", I)
             lo = container.lo if container.lo is not None else z3.IntVal(0)
@@ -672,6 +678,9 @@ class Interp:
         if isinstance(o, Index):
             return BoundMethod(o, name)
         if isinstance(o, TS):
+            if name in ("hour", "day_of_week", "day", "day_of_year", "month", "dayofweek", "dayofyear", "weekday"):
+                # calendar fields: uninterpreted functions of the instant (nothing about the calendar is assumed)
+                return PyNum(z3.Function("CAL." + {"dayofweek": "day_of_week", "dayofyear": "day_of_year"}.get(name, name), I, I)(o.tick if o.tick.sort() == I else z3.ToInt(o.tick)))
             return BoundMethod(o, name)
         if isinstance(o, Opaque) and o.what == "source" and name in ("name", "link"): return Label(True, "source " + name)
         if isinstance(o, Opaque) and o.what == "Sources": return Opaque("source", name)
@@ -805,6 +814,11 @@ class Interp:
         raise Unsupported(f"subscript {type(base).__name__}[{type(key).__name__}]")
 
     def store_subscript(self, base, key, v):
+        if isinstance(base, PArr) and isinstance(key, PyNum) and isinstance(v, PyNum):
+            old, k_, val = base.at, key.z, v.r
+            self.lib_pre("array index in range", z3.And(k_ >= 0, k_ < _z(base.n)))
+            base.at = lambda p: z3.If(p == k_, val, old(p))
+            return
         if isinstance(base, Arr) and isinstance(key, PyNum) and z3.is_int_value(key.z) and key.z.as_long() == 0 \
                 and isinstance(v, PyNum) and base.origin is not None:
             o = base.origin
@@ -972,6 +986,8 @@ class Interp:
             return Arr(lambda tt_: a.r * b.mag(tt_), b.origin, b.length)
         if isinstance(a, Arr) and isinstance(b, PyNum) and t == "Mult":
             return Arr(lambda tt_: a.mag(tt_) * b.r, a.origin, a.length)
+        if isinstance(a, TS) and isinstance(b, Opaque) and b.what == "timedelta" and t in ("Add", "Sub"):
+            return TS(rv(a.tick) + b.payload if t == "Add" else rv(a.tick) - b.payload)
         if isinstance(a, TS) and isinstance(b, TS) and t == "Sub":
             return Opaque("timedelta", a.tick - b.tick)
         if isinstance(a, list) and isinstance(b, PyNum) and t == "Mult" and len(a) == 1:
@@ -1258,6 +1274,7 @@ class Interp:
             if isinstance(x, SDict): return PyNum(z3.IntVal(len(x.d)))
             if isinstance(x, SList): return PyNum(x.n)
             if isinstance(x, QList): return PyNum(x.n)
+            if isinstance(x, PArr): return PyNum(_z(x.n))
             if isinstance(x, DF):
                 if x.vec.n is None: raise Unsupported("len of series without length")
                 eng.assume(x.vec.n >= 0)
@@ -1341,6 +1358,29 @@ class Interp:
             pf = getattr(a, "prefix", None)
             if pf is None: raise Unsupported("np.cumsum of an array without structural prefix")
             return Arr(lambda t: pf(t), a.origin, a.length)
+        if name == "np.full" and "shape" in kwargs and isinstance(kwargs["shape"], PyNum) and isinstance(kwargs.get("fill_value"), PyNum):
+            c = kwargs["fill_value"].r
+            return PArr(kwargs["shape"].z, lambda p: c)
+        if name == "enumerate" and isinstance(args[0], Index):
+            o = args[0].origin
+            if getattr(o, "range_start", None) is None: raise Unsupported("enumerate over a non-range index")
+            s0 = o.range_start
+            lst = SList(o.n, lambda i: (PyNum(i), TS(s0 + HOUR * i)), "enumerate(period_index)")
+            return lst
+        if name == "timedelta":
+            if "days" in kwargs and isinstance(kwargs["days"], PyNum): return Opaque("timedelta", kwargs["days"].r * 1440)
+            if "hours" in kwargs and isinstance(kwargs["hours"], PyNum): return Opaque("timedelta", kwargs["hours"].r * 60)
+            raise Unsupported("timedelta form")
+        if name == "pd.date_range":
+            st, en = kwargs.get("start"), kwargs.get("end")
+            if not (isinstance(st, TS) and isinstance(en, TS)) or kwargs.get("freq") not in ("h", "H"): raise Unsupported("date_range form")
+            # inclusive end point: N = floor((end - start) / 1h) + 1 (0 when end < start)
+            span = rv(en.tick) - rv(st.tick)
+            n = z3.If(span >= 0, floor_i(span / HOUR) + 1, z3.IntVal(0))
+            s0 = st.tick
+            v = Vec(lambda t: z3.And(t >= s0, t < s0 + HOUR * n, (t - s0) % HOUR == 0), lambda t: z3.RealVal(0), tmin=s0, tmax=s0 + HOUR * (n - 1), n=n)
+            v.range_start = s0
+            return Index(v)
         if name in ("np.full", "np.ones", "np.zeros"):
             n = args[0] if args else kwargs.get("shape")
             if not isinstance(n, PyNum): raise Unsupported("np.full length")
@@ -1366,6 +1406,18 @@ class Interp:
             unit = self.as_unit(kwargs.get("dtype", args[1] if len(args) > 1 else None))
             if not isinstance(arr, Arr): raise Unsupported("PintArray of non-array")
             return PintArr(arr, unit)
+        if name == "pd.DataFrame" and args and isinstance(args[0], PArr) and isinstance(kwargs.get("index"), Index):
+            arr, idx = args[0], kwargs["index"]
+            o = idx.origin
+            if getattr(o, "range_start", None) is None: raise Unsupported("DataFrame from array on a non-range index")
+            dt = kwargs.get("dtype")
+            unit = dt.payload if isinstance(dt, Opaque) and dt.what == "pint-dtype" else None
+            if unit is None: raise Unsupported("DataFrame dtype")
+            self.lib_pre("array length equals index length", _z(arr.n) == _z(o.n))
+            s0 = o.range_start; f = unit.f
+            v = Vec(o.inidx, lambda t: arr.at((t - s0) / HOUR) * f, tmin=o.tmin, tmax=o.tmax, n=o.n)
+            v.range_start = s0
+            return DF(v, unit)
         if name == "pd.DataFrame":
             data = args[0] if args else kwargs.get("data")
             idx = kwargs.get("index")
